@@ -141,7 +141,7 @@ theorem createRoot_good {s s' : State} {attrs : List Attr} {u : Unit} (h : Early
     rw [f3.head, hs2]; show s1.headElem = none; rw [f1.head]; exact h.head
   have htm : s'.templateModes = [] := by
     rw [f3.tm, hs2]; show s1.templateModes = []; rw [f1.tm]; exact h.tm
-  refine ⟨el, [], .p0, ⟨⟨hl, hoe, ?_, ?_, ?_, ?_, ?_, ?_, ?_, ?_, ?_, ?_, ?_, ?_⟩, ?_⟩, ?_⟩
+  refine ⟨el, [], .p0, ⟨⟨hl, hoe, ?_, ?_, ?_, ?_, ?_, ?_, ?_, ?_, ?_, ?_, ?_, ?_, ?_⟩, ?_⟩, ?_⟩
   · show el ∈ s'.dom.childrenOf 0
     rw [hk3]; simp
   · show s'.openElems.Nodup
@@ -175,6 +175,11 @@ theorem createRoot_good {s s' : State} {attrs : List Attr} {u : Unit} (h : Early
     unfold rootElems
     rw [hkel]; rfl
   · intro y hy; cases hy
+  · intro x hx
+    exfalso
+    have hx' : x ∈ rootElems s'.dom el := hx
+    unfold rootElems at hx'
+    rw [hkel] at hx'; cases hx'
   · show FitsM { s' with mode := .beforeHead } [] .p0
     unfold FitsM
     exact ⟨rfl, rfl⟩
@@ -647,7 +652,7 @@ theorem Good.free {r : Id} {s s' : State} (h : Good r s)
   refine ⟨up, ph, ⟨⟨hl, by rw [h2]; exact hc.stack, by rw [h1]; exact hc.rdoc, by rw [h2]; exact hc.nodup,
     by rw [h1, h2]; exact hc.tg, by rw [h1, h10]; exact hc.afn, by rw [h1, h2, h9]; exact hc.tc, by rw [h9]; exact hc.tmm,
     by rw [h1, h11]; exact hc.form, by rw [h1]; exact hc.rtu, by rw [h1]; exact hc.rnd, by rw [h1]; exact hc.kids,
-    by rw [h1, h3]; exact hc.elems, by rw [h1]; exact hc.bh⟩, ?_⟩, ?_⟩
+    by rw [h1, h3]; exact hc.elems, by rw [h1]; exact hc.bh, by rw [h1, h10]; exact hc.afx⟩, ?_⟩, ?_⟩
   · unfold FitsM at hf ⊢
     rw [h7, h8, h1, h3]; exact hf
   · intro hpf hfl
